@@ -778,16 +778,20 @@ class NativeFormatter(Formatter):
         """
         # Replace all BLOCKCOMMENT placeholders in s with the actual block_comments saved in dict
         block_comments_inserted_so_far = ""
-        first_block_comment = True  # MonoFlop, armed
         search_pattern: str | Pattern[str]
         block_comment: str
+        # The header is the block comment the output begins with (block comments on top level are sorted to the top).
+        # A block comment nested further down is never the header.
+        header_match = re.match(r"BLOCKCOMMENT(\d{6})\s+BLOCKCOMMENT\1;", s)
+        header_key: int | None = int(header_match[1]) if header_match else None
+        if header_key not in s_dict.block_comments:
+            header_key = None
         for key in s_dict.block_comments:
             block_comment = s_dict.block_comments[key]
 
-            # If this is the first block_comment, make sure it contains the default block comment
-            if first_block_comment:
+            # If this is the header, make sure it contains the default block comment
+            if key == header_key:
                 block_comment = self.make_default_block_comment(block_comment)
-                first_block_comment = False  # disarm MonoFlop
 
             # Check whether the current block comment is identical with a block comment that we already inserted earlier
             # (we do not want to insert any doubled block comments)
@@ -805,8 +809,8 @@ class NativeFormatter(Formatter):
                 # Document which block comments we already inserted.
                 block_comments_inserted_so_far += block_comment
 
-        # If no block_comment had been inserted, insert the default block comment
-        if block_comments_inserted_so_far == "":
+        # If the output does not begin with a block comment, insert the default block comment
+        if header_key is None:
             s = self.make_default_block_comment() + s
 
         return s
